@@ -27,10 +27,22 @@ KIND_POS = {"pfx0": ("0", "0"), "pfx": ("0", "4"), "whole": ("0", "10$"), "inner
             "inner0": ("5", "5"), "sfx": ("6", "10$"), "sfx0": ("10$", "10$")}
 
 
+_GFA = [None]
+
+
 def names_multiset(lines):
+    """Names of the segments an answer consists of; every one of them is the segment of the graph (the object
+    gfa.segment(name) returns), not a look-alike left over from a placeholder."""
     out = []
     for x in lines:
-        out.append(x.name if not isinstance(x, str) else x)
+        if isinstance(x, str):
+            out.append(x)
+            continue
+        out.append(x.name)
+        g = _GFA[0]
+        if g is not None and isinstance(x, gfapy.Line) and g.segment(x.name) is not x:
+            raise Violation("answer-not-of-graph", "an answer contains a segment object named %r which is not the segment of the graph (virtual: %r)" % (
+                x.name, getattr(x, "virtual", None)))
     return sorted(out)
 
 
@@ -40,6 +52,7 @@ def check_derived(gfa, model):
     exp = model.expected_refs()
     recs = {id(r): r for r in model.recs}
     dov = model.dovetails()
+    _GFA[0] = gfa
     for srec in model.segments():
         sn = srec.pos[0]
         s = gfa.segment(sn)
@@ -115,11 +128,16 @@ def check_derived(gfa, model):
         if not cands:
             raise Violation("gfa.dovetails", "dovetail %r not in gfa.dovetails" % r.text())
         l = cands[0]
+        for se in (l.from_end, l.to_end):
+            if gfa.segment(se.name) is not se.segment:
+                raise Violation("answer-not-of-graph", "%r: from_end/to_end leads to a segment object %r which is not the segment of the graph" % (r.text(), se.name))
         ends = sorted([(l.from_end.name, l.from_end.end_type), (l.to_end.name, l.to_end.end_type)])
         if ends != sorted([a, b]):
             raise Violation("from_to_end", "%r: ends %s, expected %s" % (r.text(), ends, sorted([a, b])))
         if a != b:
             oe = l.other_end(gfapy.SegmentEnd(a[0], a[1]))
+            if isinstance(oe.segment, gfapy.Line) and gfa.segment(oe.name) is not oe.segment:
+                raise Violation("answer-not-of-graph", "%r: other_end(%s) leads to a segment object which is not the segment of the graph" % (r.text(), a))
             if (oe.name, oe.end_type) != b:
                 raise Violation("other_end", "%r: other_end(%s) = %s, expected %s" % (r.text(), a, (oe.name, oe.end_type), b))
             oe = l.other_end(gfapy.SegmentEnd(b[0], b[1]))
